@@ -30,7 +30,17 @@ LawClauses(o) ==
        \o (IF T(r.le) = (T(r.lt) \/ T(r.eq)) /\ T(r.ge) = (T(r.gt) \/ T(r.eq)) /\ T(r.ne) = ~T(r.eq) THEN <<>> ELSE <<"derived_operators">>)
        \o (IF T(r.lt) = T(r.rgt) /\ T(r.gt) = T(r.rlt) /\ T(r.eq) = T(r.req) THEN <<>> ELSE <<"converse">>)
 
-Verdict(o) == IF "kind" \in DOMAIN o /\ o.kind = "laws"
+(* transitivity on a triple of non-blank values, on the recorded answers (no oracle) *)
+Law3Clauses(o) ==
+  LET r == o.r IN
+  IF ~(IsB(r.ab_eq) /\ IsB(r.bc_eq) /\ IsB(r.ac_eq) /\ IsB(r.ab_lt) /\ IsB(r.bc_lt) /\ IsB(r.ac_lt)) THEN <<"not_a_logical">>
+  ELSE (IF T(r.ab_eq) /\ T(r.bc_eq) /\ ~T(r.ac_eq) THEN <<"equality_not_transitive">> ELSE <<>>)
+       \o (IF T(r.ab_lt) /\ T(r.bc_lt) /\ ~T(r.ac_lt) THEN <<"order_not_transitive">> ELSE <<>>)
+       \o (IF (T(r.ab_eq) /\ T(r.bc_lt) /\ ~T(r.ac_lt)) \/ (T(r.ab_lt) /\ T(r.bc_eq) /\ ~T(r.ac_lt)) THEN <<"order_not_compatible_with_equality">> ELSE <<>>)
+
+Verdict(o) == IF "kind" \in DOMAIN o /\ o.kind = "laws3"
+              THEN (IF Law3Clauses(o) = <<>> THEN <<"ok">> ELSE <<"bad">> \o Law3Clauses(o))
+              ELSE IF "kind" \in DOMAIN o /\ o.kind = "laws"
               THEN (IF LawClauses(o) = <<>> THEN <<"ok">> ELSE <<"bad">> \o LawClauses(o))
               ELSE IF Conform(o) THEN <<"ok">>
               ELSE LET ds == {d \in OpenDevs : DevHolds(d, o)}
